@@ -148,6 +148,7 @@ namespace embedded_pairing::wkdibe {
 
             h = hsig + 1;
         } else {
+            this->hsig.copy(G1::zero);
             h = reinterpret_cast<const Encoding<G1Affine, compressed>*>(encoded + 1);
         }
 
@@ -346,6 +347,7 @@ namespace embedded_pairing::wkdibe {
 
             b = reinterpret_cast<const FreeSlotMarshalled<compressed>*>(bsig + 1);
         } else {
+            this->bsig.copy(G1::zero);
             b = reinterpret_cast<const FreeSlotMarshalled<compressed>*>(encoded + 1);
         }
 
